@@ -1,4 +1,4 @@
-use emmylua_code_analysis::uri_to_file_path;
+use emmylua_code_analysis::{read_file_with_encoding, uri_to_file_path};
 use lsp_types::{
     DidChangeTextDocumentParams, DidCloseTextDocumentParams, DidOpenTextDocumentParams,
     DidSaveTextDocumentParams,
@@ -192,6 +192,32 @@ pub async fn on_did_close_document(
             context
                 .file_diagnostic()
                 .clear_push_file_diagnostics(uri.clone());
+        }
+    } else if let Some(file_path) = uri_to_file_path(uri) {
+        // After didClose the truth is the file on disk again: unsaved editor text must not stay
+        // in the analysis (a workspace reload restores closed files from disk in the same way).
+        let emmyrc = analysis.get_emmyrc();
+        let current = analysis
+            .compilation
+            .get_db()
+            .get_vfs()
+            .get_file_content(&file_id)
+            .cloned();
+        drop(analysis);
+        if let Some(disk_text) = read_file_with_encoding(&file_path, &emmyrc.workspace.encoding)
+            && current.as_ref() != Some(&disk_text)
+        {
+            let mut mut_analysis = context.analysis().write().await;
+            mut_analysis.update_file_by_uri(uri, Some(disk_text));
+            drop(mut_analysis);
+
+            if !lsp_features.supports_pull_diagnostic() {
+                let interval = emmyrc.diagnostics.diagnostic_interval.unwrap_or(500);
+                context
+                    .file_diagnostic()
+                    .add_diagnostic_task(file_id, interval)
+                    .await;
+            }
         }
     }
 
